@@ -35,10 +35,10 @@ Proof.
   injection H as <-. destruct (BitLen _ >? 64); [rewrite maxU64_val; lia | apply big_Uint64_nonneg].
 Qed.
 
-Lemma run_precompile_good : forall e w a input gas rd tr B, 0 <= gas ->
-  out_good (run_precompile e w a input gas rd tr) gas B tr.
+Lemma run_precompile_good : forall e w a input gas rd tr ro B, 0 <= gas ->
+  out_good (run_precompile e w a input gas rd tr ro) gas B tr.
 Proof.
-  intros e w a input gas rd tr B Hg. unfold run_precompile.
+  intros e w a input gas rd tr ro B Hg. unfold run_precompile.
   destruct (a =? 5).
   - destruct (modexp_gas input) as [need|?|] eqn:Hm; [|og|og].
     apply modexp_gas_nonneg in Hm.
@@ -65,7 +65,7 @@ Proof.
   destruct (o_res o) eqn:Hr; cbn [o_gas o_res o_trace]; try rewrite Hr; repeat split; try lia; auto; try discriminate.
 Qed.
 
-Lemma mkout_good : forall r gas w rd tr B, 0 <= gas -> r <> R_fuel -> out_good (mkout r gas w rd tr) gas B tr.
+Lemma mkout_good : forall r gas w rd tr ro B, 0 <= gas -> r <> R_fuel -> out_good (mkout r gas w rd tr ro) gas B tr.
 Proof. intros. unfold out_good, mkout. cbn. repeat split; try lia; auto. Qed.
 
 Lemma new_frame_fields : forall code input self caller value gas ro depth tr,
@@ -115,12 +115,18 @@ Proof.
   apply run_contract_good; cbn [new_frame f_gas f_depth]; auto using depth_guard.
 Qed.
 
-Lemma do_staticcall_good : forall rec e w rd tr depth caller addr input gas B,
+Lemma set_out_ro_good : forall o ro gas B tr, out_good o gas B tr -> out_good (set_out_ro o ro) gas B tr.
+Proof. intros o ro gas B tr H. exact H. Qed.
+
+Lemma do_staticcall_good : forall rec e w rd tr depth ro caller addr input gas B,
   rec_good rec B -> 0 <= gas -> 0 <= depth ->
-  out_good (do_staticcall rec e w rd tr depth caller addr input gas) gas B tr.
+  out_good (do_staticcall rec e w rd tr depth ro caller addr input gas) gas B tr.
 Proof.
-  intros rec e w rd tr depth caller addr input gas B Hrec Hg Hd. unfold do_staticcall.
+  intros rec e w rd tr depth ro caller addr input gas B Hrec Hg Hd. unfold do_staticcall.
   destruct (depth >? CallCreateDepth) eqn:Hdep; [apply mkout_good; [assumption | discriminate]|].
+  assert (Hfin : forall o, out_good o gas B tr -> out_good (if ro then o else set_out_ro o false) gas B tr)
+    by (intros o Ho; destruct ro; [exact Ho | apply set_out_ro_good, Ho]).
+  apply Hfin.
   apply finish_call_good.
   match goal with |- out_good (run_contract _ _ _ _ ?fr _) _ _ _ =>
     change gas with (f_gas fr) at 2; change tr with (f_trace fr) at 2 end.
